@@ -120,4 +120,21 @@ def run_shard(spec):
             "violations": viol, "samples": samples}
 
 
-PROBES = {}
+def probe_phi_copies():
+    from vlib import native
+    workdir = os.environ.get("VERIF_TMP") or "."
+    src = ("void report(long);\nlong run_all(void) {\n  unsigned char i = 2;\n  do { } while (i-- > 1);\n"
+           "  report(i);\n  long j = 0; long k = 5;\n  do { j = j + k; } while (k-- > 1);\n  report(j); report(k);\n  return 0;\n}\n")
+    for lvl in ("1", "2", "s"):
+        try:
+            exe = native.build_path_a(src, lvl, workdir, "probe" + lvl)
+        except Exception as e:
+            return "build at -O%s raised %s: %s" % (lvl, type(e).__name__, str(e)[:100])
+        kind, out, rc = native.run_exe(exe)
+        os.unlink(exe)
+        if kind != "ok" or out.split() != ["0", "15", "0"]:
+            return "-O%s prints %r (%s), a conforming compiler prints 0 15 0" % (lvl, out.split(), kind)
+    return None
+
+
+PROBES = {"codegen-phi-copies-before-conditional-jump": probe_phi_copies}
